@@ -398,6 +398,40 @@ func (c *Ctx) ruleS3(rule string) {
 		}
 	}
 	c.Check(rule, "ForStmt.Evaluate#step-once", !twice, stepCs[0].Pos(), "the step assignment must run once per iteration")
+	// a return inside the body ends the rule at once: on the way from the body to a step assignment the
+	// returned-flag must have been tested (the continue branch, where the flag is false, excepted)
+	{
+		var flagIf *ssa.If
+		eachInstr(f, func(in ssa.Instruction) {
+			if iff, ok := in.(*ssa.If); ok {
+				if ex, ok := x.Origin(iff.Cond).(*ssa.Extract); ok && ex.Tuple == ssa.Value(bodyC) && ex.Index == 2 {
+					flagIf = iff
+				}
+			}
+		})
+		contEdges := map[edgeKey]bool{}
+		for _, b := range f.Blocks {
+			if iff, ok := b.Instrs[len(b.Instrs)-1].(*ssa.If); ok {
+				if bo, ok := iff.Cond.(*ssa.BinOp); ok && bo.Op == token.EQL {
+					if g, ok := x.Origin(bo.Y).(*ssa.UnOp); ok {
+						if gl, ok := g.X.(*ssa.Global); ok && gl.Name() == "CONTINUEFLAG" {
+							contEdges[edgeKey{b, 0}] = true
+						}
+					}
+				}
+			}
+		}
+		okNoStep := flagIf != nil
+		if okNoStep {
+			_, early := pathExistsEB(f, bodyC, isStep, contEdges, func(in ssa.Instruction) bool { return in == ssa.Instruction(flagIf) })
+			okNoStep = !early
+			// and the true edge of the flag test runs no step
+			if _, later := pathFrom(flagIf.Block().Succs[0].Instrs[0], isStep, nil); later {
+				okNoStep = false
+			}
+		}
+		c.Check(rule, "ForStmt.Evaluate#return-before-step", okNoStep, bodyC.Pos(), "when the body returned, the step assignment must not run any more: the returned-flag has to be tested before the step on every non-continue path")
+	}
 	// sentinels
 	sentinel := func(name string) *ssa.If {
 		var out *ssa.If
